@@ -43,6 +43,22 @@ CHECKS = {
             "half-period symmetry residual, Yorke period bound; failed corrections must leave state/period untouched.",
             "Sampling over maps, families and amplitudes; exceptions raised by the residual map itself are accepted in any type; trusts SciPy DOP853 at 1e-13.",
             "DESIGN.md §4 C05"),
+    "C06": ("exploration",
+            "exhaustive enumeration (index tables) + Hypothesis differential testing against an exact rational dictionary-polynomial oracle + metamorphic laws + harness-owned schedule sweep with bit-exact integer inputs",
+            "Encoding clause exhaustive in both tiers: all 1,947,792 multi-indices of degree <= 30 through the real encode/decode (round trips, distinct keys, psi counts, "
+            "out-of-table -> -1). Operations: generated real/complex, sparse/dense polynomials through every kernel and list-level operation against exact Fraction / Gaussian-"
+            "rational reference (integer inputs bit-exact) plus Leibniz/Jacobi/d-int/eval-product/eval-substitution laws. Schedules: threads 1..16 x prange chunk sizes x "
+            "repetitions x omp/workqueue layers x concurrent Python callers must give bit-identical arrays equal to the exact result.",
+            "Operations and schedules are sampled (degree <= 5 quick / <= 8 thorough). The harness controls thread count, chunking, layer and repetition, not instruction interleavings: no discrepancy over N runs is evidence of race freedom, not proof.",
+            "DESIGN.md §4 C06"),
+    "C11": ("exploration",
+            "property-based testing (Hypothesis) over exact-flow linear/Hamiltonian systems with y-augmented njit templates; certified root scan of the exact event function as oracle; Hamiltonian/generic twin differential",
+            "Generated planar linear systems (rotation, spiral, ellipse, saddle, uniform motion) and quadratic Hamiltonians with exact flows; plane / moving-plane / circle "
+            "events, directions -1/0/+1, tolerances, starts on/near the surface, crossings exactly on grid nodes, through all seven event drivers (fixed RK, RK45, DOP853 "
+            "each generic+Hamiltonian, symplectic). Oracle: all zeros of g on the exact flow (certified scan + bisection): hit iff an admissible zero exists, time/state/"
+            "residual within derived bounds, filtered crossings skipped, no hit => (tf, flow(tf)).",
+            "Precondition enforced by construction: crossings more than 2.5 steps apart and transversal; forward time and terminal=True only; planar linear systems only; integration accuracy itself is C02/C16.",
+            "DESIGN.md §4 C11"),
     "C13": ("fault_enumeration",
             "exhaustive fault-sequence enumeration (accept/reject/raise scripts) on the real predictor-corrector backend against a reference loop model + Hypothesis long scripts + end-to-end families re-checked by independent SciPy propagation",
             "Every corrector outcome string over {accept, reject, raise} up to length 7 (quick) / 9 (thorough) x a 1536-configuration grid (step sign/magnitude, target "
@@ -52,6 +68,14 @@ CHECKS = {
             "on an independent CR3BP field.",
             "Outcome strings and grid enumerated exhaustively; longer scripts, float steps and end-to-end families are sampled. Model assumes no step growth after an accept; members exactly on the boundary count as inside.",
             "DESIGN.md §4 C13"),
+    "C17": ("exploration",
+            "differential testing of program variants (Hamiltonian fast path vs generic twin generated from an independent symbolic gradient) on Hypothesis-generated polynomial Hamiltonians",
+            "For generated 3-DOF polynomial Hamiltonians (50% non-separable): hamsys.rhs / dH_dQ / dH_dP / _hamiltonian_rhs equal an independently differentiated field; "
+            "then every variant RK4/6/8, RK45, DOP853 x event off/on (direction -1/0/+1) x uniform/non-uniform grid integrates the Hamiltonian system through the *_ham kernels "
+            "and the same field supplied as an ordinary numba function (generated source, no library polynomial code) through the generic kernels; times, states, derivatives "
+            "and event results must agree to rounding amplification; also through _propagate_dynsys(hamsys, fixed|adaptive, forward=+-1).",
+            "Few Hamiltonians per run (each costs several JIT compilations), many runs per Hamiltonian; adaptive paths may legitimately differ at tolerance level when a rounding-level difference flips a controller decision: such 'soft' mismatches are reported only when frequent (>20% of a variant's cases).",
+            "DESIGN.md §4 C17"),
     "C19": ("exploration",
             "property-based testing (Hypothesis) with brute-force and exact-rational geometric oracle",
             "Generated cloud pairs / thresholds / segment pairs (lattice ties, parallel, collinear, zero-length, near-parallel) through "
